@@ -319,9 +319,38 @@ def verilog_eval(alias, frag, cfgs, inits, steps):
 
 # ------------------------------------------------------------------ Coq expression helpers
 
-def hist_coq(h):
-    return '[' + '; '.join('([%s], %s)' % ('; '.join('(%d, %d, %d)' % w for w in ws), nlx.zlist(rs))
-                            for ws, rs in h) + ']'
+def hz(v):
+    """hexadecimal literal (Coq parses these ~4x faster than decimal)"""
+    return hex(v) if v >= 0 else '(-%s)' % hex(-v)
+
+
+def hzlist(vs):
+    return '[' + '; '.join(hz(v) for v in vs) + ']'
+
+
+def hpairs(ps):
+    return '[' + '; '.join('(%s, %s)' % (hz(k), hz(v)) for k, v in ps) + ']'
+
+
+def pack(fields):
+    """fields = [(value, width)], first field in the lowest bits (MemHarness.dec_list / dec_writes)"""
+    z, sh = 0, 0
+    for v, w in fields:
+        z |= v << sh
+        sh += w
+    return z
+
+
+def pack_cycle(c, ws, rs):
+    f = []
+    for a, d, e in ws:
+        f += [(a, c.aw), (d, c.dw), (e, 1)]
+    f += [(a, c.aw) for a in rs]
+    return pack(f)
+
+
+def pack_hist(c, hist):
+    return hzlist([pack_cycle(c, ws, rs) for ws, rs in hist])
 
 
 def natlist(p):
@@ -330,6 +359,21 @@ def natlist(p):
 
 def ident(n):
     return list(range(n))
+
+
+def enc_items(items):
+    acc = 0
+    for k, v in reversed(list(items)):
+        acc = 1 + 2 * (k + 2 * (v + 2 * acc))
+    return acc
+
+
+def out_spec(nr, rd, a0, a1):
+    return pack([(x, 1) for x in rd]) + (1 << nr) * (a0 + 2 * a1)
+
+
+def out_items(nr, rd, items):
+    return pack([(x, 1) for x in rd]) + (1 << nr) * enc_items(items)
 
 
 # ------------------------------------------------------------------ comparison of one (memory, history)
@@ -373,8 +417,10 @@ class Checker(object):
         return spec_run([(key(a), v) for a, v in init], 0, h2)[0]
 
     def compare(self, cfg, backend, init, dflt, hist, spec_reads, spec_final, impl_reads, impl_final,
-                model_reads, model_final, probes, replay, final_kind):
-        """search (impl vs spec) then tie (impl vs model)"""
+                probes, replay, final_kind, tie=None):
+        """search: implementation vs the array specification (here, exactly, in Python).
+        tie: (model reads == spec reads, model final == implementation final) as decided inside Coq;
+        together with impl == spec this is impl == model.  Returns False when a violation was found."""
         ctx = self.ctx
         ctx.count('backend_cases', backend)
         t = first_diff(impl_reads, spec_reads)
@@ -383,7 +429,7 @@ class Checker(object):
             bad = True
             sig = '%s:read-port-disagrees-with-array' % backend
             if backend.startswith('compiled') and cfg.aw > 64 and \
-                    impl_reads == self.alias_reads(cfg, init, hist, lambda a: a & M64):
+                    impl_reads[:t + 1] == self.alias_reads(cfg, init, hist[:t + 1], lambda a: a & M64):
                 sig = 'compiled:addr-wider-than-64-bits'
             ctx.spec_violation(sig, '%s: read ports return %s at cycle %d, the array holds %s (addrwidth %d, bitwidth %d)'
                                % (backend, impl_reads[t] if t < len(impl_reads) else None, t,
@@ -391,13 +437,12 @@ class Checker(object):
                                dict(replay, backend=backend, history=hist[:t + 1], cycle=t,
                                     expected=spec_reads[t] if t < len(spec_reads) else None,
                                     got=impl_reads[t] if t < len(impl_reads) else None))
-        # final contents vs the array
         if final_kind == 'items':
             if len(set(k for k, _ in impl_final)) != len(impl_final):
                 bad = True
                 ctx.spec_violation('%s:inspect_mem-duplicate-keys' % backend, 'duplicate keys in inspect_mem', replay)
             got = dict(impl_final)
-            want = {a: v for a, v in spec_final.items()}
+            want = spec_final
             if any(got.get(a, dflt) != want.get(a, dflt) for a in set(got) | set(want)):
                 bad = True
                 ctx.spec_violation('%s:final-contents-disagree-with-array' % backend,
@@ -422,17 +467,14 @@ class Checker(object):
                     ctx.spec_violation(sig, 'CompiledSimulation.inspect_mem(mem)[%d] is %s, the array holds %d (addrwidth %d)'
                                        % (a, v, w, cfg.aw),
                                        dict(replay, backend=backend, history=hist, probe=a, expected=w, got=v))
-        # tie
-        if model_reads is not None and not bad:
-            if impl_reads != model_reads:
-                ctx.model_mismatch('%s and its Coq model disagree on read-port values' % backend,
-                                   dict(replay, backend=backend, history=hist, model=model_reads, got=impl_reads))
-            elif final_kind == 'items' and model_final is not None and [list(p) for p in impl_final] != [list(p) for p in model_final]:
-                ctx.model_mismatch('%s: list(inspect_mem(mem).items()) differs from the Coq dict model (insertion order)' % backend,
-                                   dict(replay, backend=backend, history=hist, model=model_final, got=impl_final))
-            elif final_kind == 'probes' and model_final is not None and list(impl_final) != list(model_final):
-                ctx.model_mismatch('CompiledSimulation.inspect_mem differs from the Coq hash-map model',
-                                   dict(replay, backend=backend, history=hist, model=model_final, got=impl_final))
+        if tie is not None and not bad:
+            reads_ok, final_ok = tie
+            if not reads_ok:
+                ctx.model_mismatch('%s agrees with the array but its Coq model does not (read-port values)' % backend,
+                                   dict(replay, backend=backend, history=hist, got=impl_reads))
+            elif final_ok is False:
+                ctx.model_mismatch('%s: final contents differ from the Coq model (dict insertion order / hash-map lookups)' % backend,
+                                   dict(replay, backend=backend, history=hist, got=impl_final))
         return not bad
 
 
@@ -601,52 +643,84 @@ def random_part(ctx, chk, ndesigns, ncyc_range, compiled_every, post_every, veri
             res['opt'] = run_python_sim(pyrtl.Simulation, b2, cfgs, mems2, inits, dflt, steps)[:2]
             for c, m in zip(cfgs, mems):
                 c.mem = m
-    # ---- Coq: spec and models
+    # ---- Coq: the array spec and the three models decide, inside Coq, whether they agree with what
+    #      the implementation produced (compact protocol, see Mem/MemHarness.v mem_check)
     exprs = []
     for case in cases:
         res = case['results']
+        case['py'] = []
         for mi, c in enumerate(case['cfgs']):
+            init, hist, dflt, probes = case['inits'][mi], case['hists'][mi], case['dflt'], case['probes'][mi]
             p_sim = res['sim'][2][mi]
             p_fast = res['fast'][2][mi]
             p_comp = res['compiled'][2][mi] if 'compiled' in res else ident(c.nw)
             for p in (p_sim, p_fast, p_comp):
                 if sorted(p) != ident(c.nw):
                     raise RuntimeError('cannot identify write-port order: %r' % (p,))
-            exprs.append('mem_case %d %d %s %s %s %s %s %s' % (
-                case['dflt'], c.dw, nlx.pairs(case['inits'][mi]), hist_coq(case['hists'][mi]),
-                natlist(p_sim), natlist(p_fast), natlist(p_comp), nlx.zlist(case['probes'][mi])))
-    out = ctx.coq_eval(exprs, IMPORTS, tag='c08rand', shard=12, jobs=14)
+            py_reads, py_final = spec_run(init, dflt, hist)
+            case['py'].append((py_reads, py_final))
+            comp_probes = [v if isinstance(v, int) else -1 for v in res['compiled'][1][mi]] if 'compiled' in res else []
+            case.setdefault('args', []).append((p_sim, p_fast, p_comp))
+            exprs.append('mem_check %d %d %d %d%%nat %d%%nat %s %s %s %s %s %s %s %s %s %s %s' % (
+                dflt, c.aw, c.dw, c.nw, c.nr, hpairs(init), pack_hist(c, hist),
+                hzlist([pack([(v, c.dw) for v in row]) for row in py_reads]),
+                hzlist(probes), hzlist([py_final.get(a, dflt) for a in probes]),
+                hpairs(res['sim'][1][mi]), hpairs(res['fast'][1][mi]), hzlist(comp_probes),
+                natlist(p_sim), natlist(p_fast), natlist(p_comp)))
+    out = ctx.coq_eval(exprs, IMPORTS, tag='c08rand', shard=8, jobs=15)
     k = 0
+    details = []
     for case in cases:
         res = case['results']
         for mi, c in enumerate(case['cfgs']):
-            (okb, same_formulation, (sr, sfinal), (r1, d1), (r2, d2), (r3, f3)) = unpack_case(out[k])
+            flags = [bool(x) for x in out[k]]
             k += 1
+            (okb, same, spec_r, spec_f, sim_r, sim_d, fast_r, fast_d, comp_r, comp_f) = flags
             init, hist, dflt, probes = case['inits'][mi], case['hists'][mi], case['dflt'], case['probes'][mi]
-            py_reads, py_final = spec_run(init, dflt, hist)
+            py_reads, py_final = case['py'][mi]
             replay = {'seed': ctx.seed, 'tier': ctx.tier, 'design': case['di'], 'memory': c.desc(),
                       'memory_value_map': init, 'default_value': dflt}
-            if not okb or not same_formulation or py_reads != sr or [py_final.get(a, dflt) for a in probes] != sfinal:
-                ctx.model_mismatch('Coq array spec / hist_reads / Python array spec disagree or the history has '
-                                   'colliding enabled writes (okb=%s same=%s)' % (okb, same_formulation),
-                                   dict(replay, history=hist))
+            if not (okb and same and spec_r and spec_f):
+                ctx.model_mismatch('Coq array spec / hist_reads / Python array spec disagree, or the history has '
+                                   'colliding enabled writes (flags %s)' % (flags[:4],), dict(replay, history=hist))
                 continue
             nt = nontrivial(hist)
             for backend in sorted(res):
                 r = res[backend]
                 if backend == 'compiled':
-                    chk.compare(c, backend, init, 0, hist, sr, py_final, r[0][mi], r[1][mi], r3, f3, probes, replay, 'probes')
+                    ok = chk.compare(c, backend, init, 0, hist, py_reads, py_final, r[0][mi], r[1][mi], probes, replay,
+                                     'probes', tie=(comp_r, comp_f))
+                    if not ok and c.aw > 64 and len(details) < 3:
+                        details.append((case, mi))
                 elif backend == 'verilog':
-                    chk.compare(c, backend, init, 0, hist, spec_run(init, 0, hist)[0], spec_run(init, 0, hist)[1],
-                                r[0][mi], list(r[1][mi].items()), None, None, probes, replay, 'items')
+                    v_reads, v_final = spec_run(init, 0, hist)
+                    chk.compare(c, backend, init, 0, hist, v_reads, v_final, r[0][mi], list(r[1][mi].items()), probes,
+                                replay, 'items')
                 else:
-                    model = {'sim': (r1, d1), 'fast': (r2, d2)}.get(backend, (r1, None))
-                    chk.compare(c, backend, init, dflt, hist, sr, py_final, r[0][mi], r[1][mi], model[0], model[1],
-                                probes, replay, 'items')
+                    tie = {'sim': (sim_r, sim_d), 'fast': (fast_r, fast_d)}.get(backend, (sim_r, None))
+                    chk.compare(c, backend, init, dflt, hist, py_reads, py_final, r[0][mi], r[1][mi], probes, replay,
+                                'items', tie=tie)
                 sample = None
                 if case['di'] < 2 and mi == 0 and backend in ('sim', 'compiled'):
                     sample = dict(replay, backend=backend, history_first_cycles=hist[:2], reads_first_cycles=r[0][mi][:2])
                 ctx.case(('rand', backend, c.aw, c.dw, repr(init), repr(hist)), nontrivial=nt, sample=sample)
+    # the faithful hash-map model (key = low limb of the address) reproduces the wide-address behaviour
+    if details:
+        exprs = []
+        for case, mi in details:
+            c = case['cfgs'][mi]
+            p_sim, p_fast, p_comp = case['args'][mi]
+            exprs.append('mem_case_packed %d %d %d %d%%nat %d%%nat %s %s %s %s %s %s' % (
+                case['dflt'], c.aw, c.dw, c.nw, c.nr, hpairs(case['inits'][mi]), pack_hist(c, case['hists'][mi]),
+                natlist(p_sim), natlist(p_fast), natlist(p_comp), hzlist(case['probes'][mi])))
+        for (case, mi), v in zip(details, ctx.coq_eval(exprs, IMPORTS, tag='c08detail', shard=1, jobs=3)):
+            r3 = unpack_case(v)[5][0]
+            impl = case['results']['compiled'][0][mi]
+            if impl == r3:
+                ctx.count('wide-address behaviour reproduced exactly by the Coq hash-map model', 'yes')
+            else:
+                ctx.model_mismatch('CompiledSimulation with addrwidth > 64: the Coq hash-map model (key = addr mod 2^64) '
+                                   'does not reproduce the implementation', {'design': case['di'], 'model': r3, 'got': impl})
 
 
 def unpack_case(v):
@@ -763,34 +837,41 @@ def sweep_part(ctx, chk, configs, dflts):
                         ctx.count('compiled_rejected_by_pyrtl', str(e)[:60])
                 p_sim, p_fast = results['sim'][1], results['fast'][1]
                 p_comp = results['compiled'][1] if 'compiled' in results else ident(nw)
-                exprs.append('sweep_case %d %s %d%%nat %d%%nat %s %s %s' % (
-                    dflt, nlx.pairs(content), nw, nr, natlist(p_sim), natlist(p_fast), natlist(p_comp)))
-                meta.append((cfg, ops, dflt, content, results))
+                specs = [spec_run(content, dflt, [op]) for op in ops]
+                exp = [out_spec(nr, rd[0], fin.get(0, dflt), fin.get(1, dflt)) for rd, fin in specs]
+                simc = [out_items(nr, rd, items) for rd, items in results['sim'][0]]
+                fastc = [out_items(nr, rd, items) for rd, items in results['fast'][0]]
+                compc = [out_spec(nr, rd, f[0], f[1]) for rd, f in results['compiled'][0]] if 'compiled' in results else []
+                exprs.append('sweep_check %d %s %d%%nat %d%%nat %s %s %s %s %s %s %s' % (
+                    dflt, hpairs(content), nw, nr, natlist(p_sim), natlist(p_fast), natlist(p_comp),
+                    hzlist(exp), hzlist(simc), hzlist(fastc), hzlist(compc)))
+                meta.append((cfg, ops, dflt, content, results, specs))
                 ctx.count('sweep_contents', '%dw%dr' % (nw, nr))
-    out = ctx.coq_eval(exprs, IMPORTS, tag='c08sweep', shard=4, jobs=14)
-    for (cfg, ops, dflt, content, results), rows in zip(meta, out):
-        if len(rows) != len(ops):
-            ctx.model_mismatch('Coq ok_ops and the Python enumeration of operation tuples differ in length', {})
+    out = ctx.coq_eval(exprs, IMPORTS, tag='c08sweep', shard=6, jobs=15)
+    for (cfg, ops, dflt, content, results, specs), flags in zip(meta, out):
+        flags = [bool(x) for x in flags]
+        replay = {'tier': ctx.tier, 'memory': cfg.desc(), 'memory_value_map': content, 'default_value': dflt}
+        if not (flags[0] and flags[1]):
+            ctx.model_mismatch('sweep: Coq ok_ops/array spec and the Python enumeration/array spec disagree (flags %s)' % flags,
+                               replay)
             continue
-        for t, (op, row) in enumerate(zip(ops, rows)):
-            (okb, same, (sr, sfinal), (r1, d1), (r2, d2), (r3, f3)) = unpack_case(row)
-            py_reads, py_final = spec_run(content, dflt, [op])
-            replay = {'tier': ctx.tier, 'memory': cfg.desc(), 'memory_value_map': content, 'default_value': dflt}
-            if not okb or not same or py_reads != sr or [py_final.get(a, dflt) for a in (0, 1)] != sfinal:
-                ctx.model_mismatch('sweep: Coq array spec and Python array spec disagree', dict(replay, op=op))
-                continue
-            for backend, (impl_rows, _) in sorted(results.items()):
+        if not flags[5]:
+            ctx.model_mismatch('sweep: a Coq concrete model disagrees with the Coq array spec on some operation', replay)
+        all_ok = {}
+        for t, (op, (py_reads, py_final)) in enumerate(zip(ops, specs)):
+            for backend, (impl_rows, _) in results.items():
                 ir, ifin = impl_rows[t]
-                if backend == 'compiled':
-                    chk.compare(cfg, backend, content, 0, [op], sr, py_final, [ir], ifin, r3, f3, [0, 1], replay, 'probes')
-                else:
-                    model = {'sim': (r1, d1), 'fast': (r2, d2)}.get(backend, (r1, None))
-                    chk.compare(cfg, backend, content, dflt, [op], sr, py_final, [ir], ifin, model[0], model[1],
-                                [0, 1], replay, 'items')
+                ok = chk.compare(cfg, backend, content, 0 if backend == 'compiled' else dflt, [op], py_reads, py_final,
+                                 [ir], ifin, [0, 1], replay, 'probes' if backend == 'compiled' else 'items')
+                all_ok[backend] = all_ok.get(backend, True) and ok
                 ctx.case(('sweep', backend, cfg.nw, cfg.nr, dflt, repr(content), repr(op)),
                          nontrivial=any(e for _, _, e in op[0]) or bool(content),
                          sample=dict(replay, backend=backend, op=op, reads=ir, after=ifin)
                          if (t == 5 and backend == 'sim' and len(content) == 1 and dflt == 0 and cfg.nw == 1 and cfg.nr == 1) else None)
+        for backend, fl in (('sim', flags[2]), ('fast', flags[3]), ('compiled', flags[4])):
+            if backend in results and all_ok.get(backend) and not fl:
+                ctx.model_mismatch('sweep: %s and its Coq model differ on some operation (reads or resulting contents, '
+                                   'dict order included)' % backend, dict(replay, backend=backend))
 
 
 def walk_part(ctx, chk, walks):
@@ -818,30 +899,35 @@ def walk_part(ctx, chk, walks):
                     post, pm = be[name]
                     res[name] = run_post(ctx, pyrtl.Simulation, post, [cfg], pm, [content], dflt, steps, name)
                 p_comp = res['compiled'][2][0] if 'compiled' in res else ident(nw)
-                exprs.append('walk_case %d %s %d%%nat %d%%nat %s %s %s %s' % (
-                    dflt, nlx.pairs(content), nw, nr, nlx.zlist(codes), natlist(res['sim'][2][0]),
-                    natlist(res['fast'][2][0]), natlist(p_comp)))
-                meta.append((cfg, hist, dflt, content, res, order))
+                py_reads, py_final = spec_run(content, dflt, hist)
+                bits = max(1, (len(ops) - 1).bit_length())
+                pcodes = [pack([(x, bits) for x in codes[q:q + 16]]) for q in range(0, len(codes), 16)]
+                rcodes = [pack([(x, 1) for x in rd]) for rd in py_reads]
+                pexp = [pack([(x, nr) for x in rcodes[q:q + 32]]) for q in range(0, len(rcodes), 32)]
+                exprs.append('walk_check %d %s %d%%nat %d%%nat %d 16%%nat %d%%nat %s %s %s %s %s' % (
+                    dflt, hpairs(content), nw, nr, bits, len(codes), hzlist(pcodes), hzlist(pexp),
+                    natlist(res['sim'][2][0]), natlist(res['fast'][2][0]), natlist(p_comp)))
+                meta.append((cfg, hist, dflt, content, res, order, py_reads, py_final))
                 ctx.count('walk_cycles', '%dw%dr order %d' % (nw, nr, order), len(hist))
-    out = ctx.coq_eval(exprs, IMPORTS, tag='c08walk', shard=1, jobs=14)
-    for (cfg, hist, dflt, content, res, order), v in zip(meta, out):
-        okb, same, spec, flags, finals = v
-        sr, sfinal = listify(spec[0]), list(spec[1])
-        d1, d2, f3 = [tuple(p) for p in finals[0]], [tuple(p) for p in finals[1]], list(finals[2])
-        py_reads, py_final = spec_run(content, dflt, hist)
+    out = ctx.coq_eval(exprs, IMPORTS, tag='c08walk', shard=1, jobs=15)
+    for (cfg, hist, dflt, content, res, order, py_reads, py_final), v in zip(meta, out):
+        flags, finals = [bool(x) for x in v[0]], v[1]
+        sfinal = list(finals[0])
+        d1, d2, f3 = [tuple(p) for p in finals[1]], [tuple(p) for p in finals[2]], list(finals[3])
         replay = {'tier': ctx.tier, 'memory': cfg.desc(), 'memory_value_map': content, 'default_value': dflt,
                   'walk': 'de Bruijn order %d over %d operation tuples' % (order, len(ok_ops(cfg.nw, cfg.nr)))}
-        if not okb or not same or py_reads != sr or [py_final.get(a, dflt) for a in (0, 1)] != sfinal:
-            ctx.model_mismatch('walk: Coq array spec and Python array spec disagree', replay)
+        if not (flags[0] and flags[1] and flags[2]) or [py_final.get(a, dflt) for a in (0, 1)] != sfinal:
+            ctx.model_mismatch('walk: Coq array spec and Python array spec disagree (flags %s)' % flags, replay)
             continue
-        if not (flags[0] and flags[1] and (flags[2] or dflt != 0)):
-            ctx.model_mismatch('walk: a Coq concrete model disagrees with the Coq array spec (flags %s)' % (flags,), replay)
         for backend, r in sorted(res.items()):
             if backend == 'compiled':
-                chk.compare(cfg, backend, content, 0, hist, sr, py_final, r[0][0], r[1][0], sr, f3, [0, 1], replay, 'probes')
+                chk.compare(cfg, backend, content, 0, hist, py_reads, py_final, r[0][0], r[1][0], [0, 1], replay, 'probes',
+                            tie=(flags[5], list(r[1][0]) == f3))
             else:
                 mfinal = {'sim': d1, 'fast': d2}.get(backend)
-                chk.compare(cfg, backend, content, dflt, hist, sr, py_final, r[0][0], r[1][0], sr, mfinal, [0, 1], replay, 'items')
+                fl = {'sim': flags[3], 'fast': flags[4]}.get(backend, flags[3])
+                chk.compare(cfg, backend, content, dflt, hist, py_reads, py_final, r[0][0], r[1][0], [0, 1], replay, 'items',
+                            tie=(fl, None if mfinal is None else [tuple(x) for x in r[1][0]] == mfinal))
             # one case per window of `order` consecutive operations
             for t in range(len(hist) - order + 1):
                 ctx.case(('walk', backend, cfg.nw, cfg.nr, order, dflt, len(content), t), nontrivial=True)
@@ -917,14 +1003,15 @@ def hashmap_part(ctx, nseq, nops):
                 chain.append((node.contents.key, sum(node.contents.val[i] << (64 * i) for i in range(nl))))
                 node = node.contents.next
             buckets.append(chain)
-        exprs.append('hm_case %d%%nat %d%%nat [%s]' % (size, nl, '; '.join('(%d, %d, %d)' % o for o in ops)))
+        exprs.append('hm_check %d%%nat %d%%nat [%s] [%s] %s' % (
+            size, nl, '; '.join('(%d, %s, %s)' % (o[0], hz(o[1]), hz(o[2])) for o in ops),
+            '; '.join(hpairs(c) for c in buckets), hzlist(outs)))
         meta.append((size, nl, ops, buckets, outs))
         ctx.count('hashmap_buckets', size)
         ctx.count('hashmap_longest_chain', max(len(c) for c in buckets))
-    out = ctx.coq_eval(exprs, IMPORTS, tag='c08hm', shard=20, jobs=8)
+    out = ctx.coq_eval(exprs, IMPORTS, tag='c08hm', shard=4, jobs=15)
     for (size, nl, ops, buckets, outs), v in zip(meta, out):
-        mb = [[tuple(p) for p in chain] for chain in v[0]]
-        mo = list(v[1])
+        chains_ok, outs_ok = bool(v[0]), bool(v[1])
         # search: lookups vs a plain dict
         d, want = {}, []
         for kind, k, val in ops:
@@ -936,9 +1023,9 @@ def hashmap_part(ctx, nseq, nops):
         if outs != want:
             ctx.spec_violation('compiled:hashmap-lookup', 'the emitted C hash map (size %d) returns %s, a map returns %s'
                                % (size, outs, want), rep)
-        elif buckets != mb or outs != mo:
-            ctx.model_mismatch('bucket chains of the emitted C hash map differ from the Coq bucket model',
-                               dict(rep, real=buckets, model=mb))
+        elif not (chains_ok and outs_ok):
+            ctx.model_mismatch('bucket chains / lookups of the emitted C hash map differ from the Coq bucket model',
+                               dict(rep, real=buckets))
         ctx.case(('hashmap', size, nl, repr(ops)), nontrivial=max(len(c) for c in buckets) >= 2 or size >= 16,
                  sample={'buckets': size, 'limbs': nl, 'first_ops': ops[:4], 'chains': [c for c in buckets if c][:3]}
                  if (size == 3 and ops is meta[2][2]) else None)
@@ -974,18 +1061,18 @@ def gen_rom(rng, k):
     if kind == 'list':
         data = [table[a] for a in range(len(table))]
         pydata = list(data)
-        coq = 'RomList %s' % nlx.zlist(data)
+        coq = 'RomList %s' % hzlist(data)
         spec_data = data
     elif kind == 'dict':
         items = sorted(table.items())
         rng.shuffle(items)
         pydata = dict(items)
-        coq = 'RomDict %s' % nlx.pairs(items)
+        coq = 'RomDict %s' % hpairs(items)
         spec_data = dict(table)
     else:
         tbl = dict(table)
         pydata = (lambda t: (lambda a: t[a]))(tbl)      # raises KeyError where undefined
-        coq = 'fun_table %s' % nlx.pairs(sorted(table.items()))
+        coq = 'fun_table %s' % hpairs(sorted(table.items()))
         spec_data = dict(table)
     return dict(k=k, aw=aw, bw=bw, kind=kind, flavour=flavour, pad=pad, pydata=pydata, coq=coq, spec_data=spec_data)
 
@@ -1116,7 +1203,7 @@ def rom_part(ctx, ndesigns, per_design):
                                            {'rom': {x: r[x] for x in ('aw', 'bw', 'kind', 'flavour', 'pad')},
                                             'data': r['spec_data'], 'address': a})
                 ctx.case(('rom-partial', name, r['aw'], r['bw'], r['kind'], repr(r['spec_data']), r['pad']), nontrivial=True)
-    out = ctx.coq_eval(exprs, IMPORTS, tag='c08rom', shard=40, jobs=8)
+    out = ctx.coq_eval(exprs, IMPORTS, tag='c08rom', shard=5, jobs=15)
     for r, v in zip(meta, out):
         codes, (tflag, table) = v[0], v[1]
         model = [('ok', c[1]) if c[0] == 0 else ('err',) for c in codes]
